@@ -66,6 +66,32 @@ inductive Obs where
   | fb (t : Nat) (rate : Nat)       -- adaptive feedback; `rate` = `current_rate` afterwards
 deriving Repr
 
+/-! ### adaptive, full strength: while the reported `current_rate` is `r`, the admissions satisfy the
+    bucket bound of `r` — capacity `cap r = r · window` plus `r` × length over every interval — for
+    every feedback sequence.  Epochs are cut in *call order* at the feedback records that change the
+    rate: a burst made after `record_failure`, even at the same instant, is judged against the
+    decreased capacity. -/
+
+/-- timestamps admitted while the reported rate stays `r`: up to the first feedback record that
+    reports a different rate -/
+def epochAdm (r : Nat) : List Obs → List Nat
+  | [] => []
+  | .acq t ok :: rest => if ok then t :: epochAdm r rest else epochAdm r rest
+  | .tua _ _ :: rest => epochAdm r rest
+  | .fb _ r' :: rest => if r' = r then epochAdm r rest else []
+
+/-- at every feedback record that changes the rate, the epoch that follows satisfies the bucket bound
+    of the new rate (`cap` = bucket size as a function of the rate, `eps` = slack, units) -/
+def epochsOK (cap : Nat → Nat) (one eps : Nat) : Nat → List Obs → Bool
+  | _, [] => true
+  | r, .fb _ r' :: rest =>
+    (r' == r || bucketOK (cap r' + eps) r' one (epochAdm r' rest)) && epochsOK cap one eps r' rest
+  | r, _ :: rest => epochsOK cap one eps r rest
+
+/-- `r0` = the rate before the first feedback -/
+def adaptiveOK (cap : Nat → Nat) (one eps r0 : Nat) (obs : List Obs) : Bool :=
+  bucketOK (cap r0 + eps) r0 one (epochAdm r0 obs) && epochsOK cap one eps r0 obs
+
 /-- `time_until_available(t) = 0` immediately followed by `try_acquire(t)` ⇒ granted -/
 def zeroAdmitsOK : List Obs → Bool
   | .tua t 0 :: .acq t' ok :: rest =>
@@ -109,5 +135,38 @@ def fifoOK (recv fwd : List Nat) : Bool := fwd.isSublist recv
 /-- no request is forwarded before it arrived -/
 def fwdTimesOK (arr : List (Nat × Nat)) (fwd : List (Nat × Nat)) : Bool :=
   fwd.all (fun f => arr.all (fun a => a.1 != f.1 || decide (a.2 ≤ f.2)))
+
+/-! ### the drain never stalls (entity level) -/
+
+/-- one delivery to the limiter as seen from outside: a request or the limiter's own poll event at time
+    `t`; did the handler emit a forward; the time of the poll event it scheduled, if any -/
+structure EObs where
+  poll : Bool
+  t : Nat
+  fwd : Bool
+  next : Option Nat
+deriving Repr, DecidableEq
+
+/-- a scheduled poll is never in the past, and a poll that forwards nothing is never re-armed at the
+    same instant (it would find the same refusal again, for ever) -/
+def noStallOK (obs : List EObs) : Bool :=
+  obs.all fun o => match o.next with
+    | none => true
+    | some p => decide (o.t ≤ p) && !(o.poll && !o.fwd && p == o.t)
+
+/-- the poll event outstanding after the deliveries (a poll delivery consumes the outstanding one) -/
+def outstanding : Option Nat → List EObs → Option Nat
+  | cur, [] => cur
+  | cur, o :: os => outstanding (match o.next with | some p => some p | none => if o.poll then none else cur) os
+
+/-- at most one poll event is outstanding: a handler schedules one only when none is pending -/
+def singlePollOK : Option Nat → List EObs → Bool
+  | _, [] => true
+  | cur, o :: os =>
+    (o.next.isNone || (if o.poll then true else cur.isNone)) &&
+      singlePollOK (match o.next with | some p => some p | none => if o.poll then none else cur) os
+
+/-- whatever is still queued has a poll event coming for it -/
+def pollCoverOK (obs : List EObs) (depth : Nat) : Bool := depth == 0 || (outstanding none obs).isSome
 
 end HappyModel.C10
